@@ -190,9 +190,12 @@ func genC16(t *rapid.T) *Scenario {
 		nblocks := rapid.IntRange(2, 8).Draw(t, "nblocks")
 		for b := 0; b < nblocks; b++ {
 			var k *jFamKey
-			if chance(t, 75, "nested") {
+			switch r := uniform(t, 0, 9, "kfam"); {
+			case r < 6:
 				k = jNested[uniform(t, 0, len(jNested)-1, "jn")]
-			} else {
+			case r < 8:
+				k = jTopRef[uniform(t, 0, len(jTopRef)-1, "jr")]
+			default:
 				k = jTopValue[uniform(t, 0, len(jTopValue)-1, "jt")]
 			}
 			if !k.Ref && rapid.Bool().Draw(t, "store") {
